@@ -1,4 +1,4 @@
-\* a foreign object occupies a task name
+\* as core, and the Job may be refused by the queue controller before it starts
 SPECIFICATION Spec
 CONSTANTS
  N = 1
@@ -9,7 +9,7 @@ CONSTANTS
  FD = 2
  TTL = 2
  Forbid = FALSE
- Foreign = TRUE
+ Foreign = FALSE
  MaxTime = 4
  MaxEvq = 2
  MaxFaults = 0
@@ -19,7 +19,7 @@ CONSTANTS
  UserDeletes = FALSE
  ExtDeletes = FALSE
  NodeDowns = FALSE
- Rejects = FALSE
+ Rejects = TRUE
 INVARIANTS TypeOK C08_OneLive C09_NotLost C09_NoForeignAdopt C10_SuccOnly C10_FailOnly G_Kill G_Reaches G_Listed G_Deleted G_Foreign
 PROPERTIES C08_Order C08_Delay C08_Gates C09_Keep C10_NoLiveAtFinish C11_Monotone C12_DeleteJustified C12_ForceGate C13_Order C13_TTLNotEarly
 CHECK_DEADLOCK FALSE
